@@ -45,8 +45,12 @@ RULES = {
     "whatever its current storage, whether it is written to the data file or made inline; a fast path that serializes the "
     "model as it is (`nothing is large enough`) leaves already-external small initializers external, pointing into the old "
     "location",
+    "R11": "an empty shard is told by its tensor list: in every shard planner (a loop that appends tensors to the last list of a "
+    "list of lists and opens a new list when the limit would be exceeded), the test that opens a new shard asks whether the "
+    "current shard holds a tensor (`shards[-1]`, `len(shards[-1])`), never whether a byte counter is positive - zero-size tensors "
+    "leave the counter at 0, so an oversized tensor would join them and the shard would exceed the limit while holding several tensors",
 }
-FLOORS = {"R1": 4, "R2": 4, "R3": 20, "R4": 1, "R5": 3, "R6": 25, "R7": 1, "R8": 2, "R9": 1, "R10": 1}
+FLOORS = {"R1": 4, "R2": 4, "R3": 20, "R4": 1, "R5": 3, "R6": 25, "R7": 1, "R8": 2, "R9": 1, "R10": 1, "R11": 2}
 EXPLANATION = (
     "Class-qualified effect summaries of the try bodies and finally blocks of the two save entry points; data-flow "
     "checks on the initializer collection loops and on the offset accumulators; table agreement between the "
@@ -496,7 +500,39 @@ def rule_r10(ctx):
               construct="exit of the external-data branch without unload_from_model")
 
 
+def rule_r11(ctx):
+    n = 0
+    for m in ctx.repo.pkg_modules():
+        for f in m.all_funcs:
+            if isinstance(f.node, ast.Lambda):
+                continue
+            # planners: `<L>.append([])` and `<L>[-1].append(<t>)` on the same local inside a loop
+            opens = [c for c in calls_in(f) if isinstance(c.func, ast.Attribute) and c.func.attr == "append" and isinstance(c.func.value, ast.Name)
+                     and len(c.args) == 1 and isinstance(c.args[0], ast.List) and not c.args[0].elts]
+            for oc in opens:
+                lst = oc.func.value.id
+                if not any(isinstance(c.func, ast.Attribute) and c.func.attr == "append" and norm(c.func.value) == f"{lst}[-1]" for c in calls_in(f)):
+                    continue
+                iff = getattr(getattr(oc, "_parent", None), "_parent", None)
+                if not isinstance(iff, ast.If):
+                    continue
+                n += 1
+                conj = iff.test.values if isinstance(iff.test, ast.BoolOp) else [iff.test]
+                by_list = any(f"{lst}[-1]" in norm(t) for t in conj)
+                counters = {a.target.id for a in own_nodes(f.node) if isinstance(a, ast.AugAssign) and isinstance(a.target, ast.Name)}
+                by_counter = [t for t in conj if (isinstance(t, ast.Name) and t.id in counters) or (
+                    isinstance(t, ast.Compare) and len(t.ops) == 1 and isinstance(t.left, ast.Name) and t.left.id in counters
+                    and isinstance(t.comparators[0], ast.Constant) and t.comparators[0].value == 0)]
+                ctx.check("R11", f"{f.local}: a new shard is opened only when `{lst}[-1]` holds a tensor", by_list and not by_counter, f, iff,
+                          f"`{norm(iff.test)}` decides that the current shard is not empty from a byte counter: after zero-size tensors the counter is still 0, so a "
+                          "tensor larger than the limit is appended to the same shard - a shard that exceeds the limit and holds more than one tensor",
+                          how="conjuncts of the test guarding `<shards>.append([])`: list emptiness, not `<counter> > 0`",
+                          construct="shard emptiness decided by a byte counter")
+    ctx.require(n >= 2, f"only {n} shard planners found")
+
+
 def run(ctx):
+    rule_r11(ctx)
     rule_r10(ctx)
     rule_r9(ctx)
     rule_r8(ctx)
